@@ -172,26 +172,20 @@ class Desync(Exception):
 
 
 def sync(W, M):
-    """extend the bijection along the entries and compare every live known node with the model state.
+    """extend the bijection along the entries (first pass), then compare every live known node with the model state.
     Returns list of differences (empty = model and implementation agree)."""
     diffs = []
     work = list(W.alive_nodes().items())
-    seen = set()
+    seen = {}
     while work:
         mid, o = work.pop()
         if mid in seen:
             continue
-        seen.add(mid)
+        seen[mid] = o
         mn = M.get(mid)
         if mn is None:
             diffs.append(f"node {mid}: not in the model heap")
             continue
-        ob = W.observe(o)
-        for f in ("kind", "flag", "is_locked", "parents") + (("pars", "shm", "mm") if ob["kind"] == "td" else ()):
-            if ob[f] != mn[f]:
-                diffs.append(f"node {mid}: {f}: impl {ob[f]} model {mn[f]}")
-        if not mn["live"]:
-            diffs.append(f"node {mid}: alive in the implementation, dead in the model")
         re = W.entries(o)
         me = mn["ents"]
         if [k for k, _ in re] != [k for k, _, _ in me]:
@@ -226,6 +220,16 @@ def sync(W, M):
                     W.leaf_keep.append(v)
                 elif known != mv:
                     diffs.append(f"node {mid}[{k}]: impl -> leaf {known}, model -> leaf {mv}")
+    for mid, o in seen.items():
+        mn = M.get(mid)
+        if mn is None:
+            continue
+        ob = W.observe(o)
+        for f in ("kind", "flag", "is_locked", "parents") + (("pars", "shm", "mm") if ob["kind"] == "td" else ()):
+            if ob[f] != mn[f]:
+                diffs.append(f"node {mid}: {f}: impl {ob[f]} model {mn[f]}")
+        if not mn["live"]:
+            diffs.append(f"node {mid}: alive in the implementation, dead in the model")
     for mid, r in W.wr.items():
         if r() is None and mid in M and M[mid]["live"]:
             diffs.append(f"node {mid}: collected in the implementation, live in the model")
